@@ -199,12 +199,23 @@ func cmdCheck(prop, tier string) int {
 	}
 	sort.Strings(order)
 	knownHit := []string{}
+	knownRuns, knownSigs := map[string]int{}, map[string]int{}
+	var knownOrder []*knownFinding
+	defer func() {
+		for _, k := range knownOrder {
+			fmt.Printf("KNOWN-FINDING: property=%s %s :: %s (%d runs, %d distinct signatures in this run)\n", prop, k.Sig, k.Desc, knownRuns[k.Sig], knownSigs[k.Sig])
+		}
+	}()
 	newViol := 0
 	var replayPaths []string
 	for _, sig := range order {
 		g := groups[sig]
 		if k := matchKnown(known, prop, sig); k != nil {
-			fmt.Printf("KNOWN-FINDING: property=%s %s (%d runs) %s\n", prop, sig, g.count, k.Desc)
+			if knownRuns[k.Sig] == 0 {
+				knownOrder = append(knownOrder, k)
+			}
+			knownRuns[k.Sig] += g.count
+			knownSigs[k.Sig]++
 			knownHit = append(knownHit, sig)
 			continue
 		}
